@@ -5,7 +5,7 @@ set -e
 export GOFLAGS=-mod=mod GOPROXY=off GOSUMDB=off GOTOOLCHAIN=local
 S=$(mktemp -d /dev/shm/regen.XXXXXX)
 trap 'rm -rf "$S"' EXIT
-rsync -a --exclude .git /repo/ "$S/"
+rsync -a --exclude .git "${REPO:-/repo}/" "$S/"
 cd "$S/fc"
 go build -o fc . 
 ./fc ../pkg/pkg_all.foi ftype.fo ast.fo expr_to_type.fo expr_to_go.fo stmt_to_go.fo tokenizer.fo ast_util.fo ir_factory.fo parse_state.fo infer.fo parser.fo main.fo
@@ -16,11 +16,11 @@ mkdir gen1 && cp gen_*.go gen1/
 ./fc2 ../pkg/pkg_all.foi ftype.fo ast.fo expr_to_type.fo expr_to_go.fo stmt_to_go.fo tokenizer.fo ast_util.fo ir_factory.fo parse_state.fo infer.fo parser.fo main.fo >/dev/null
 gofmt -w gen_*.go
 for f in gen_*.go; do cmp "$f" "gen1/$f"; done
-cp gen_*.go /repo/fc/
+cp gen_*.go "${REPO:-/repo}/fc/"
 if [ "$1" = all ]; then
   cd "$S/samples"
   for f in $(sed 's/ .*$//' filelist.txt); do ../fc/fc2 ../pkg/pkg_all.foi $f >/dev/null; done
-  gofmt -w gen_*.go; cp gen_*.go /repo/samples/
-  cd "$S/cmd/build_sample_md"; ../../fc/fc2 ../../pkg/pkg_all.foi build_sample_md.fo >/dev/null; gofmt -w gen_*.go; cp gen_*.go /repo/cmd/build_sample_md/
+  gofmt -w gen_*.go; cp gen_*.go "${REPO:-/repo}/samples/"
+  cd "$S/cmd/build_sample_md"; ../../fc/fc2 ../../pkg/pkg_all.foi build_sample_md.fo >/dev/null; gofmt -w gen_*.go; cp gen_*.go "${REPO:-/repo}/cmd/build_sample_md/"
 fi
 echo regenerated
